@@ -102,4 +102,8 @@ class JsonRequest:
 
     @property
     def data(self):
-        return json_loads(self.body)
+        # a body that is not JSON is no data at all, not a server error
+        try:
+            return json_loads(self.body)
+        except (TypeError, ValueError):
+            return None
